@@ -211,4 +211,4 @@ def check(tier, seed):
              'tie': 'translator (Gen/Kernels.lean regenerated this run; theorems are about those terms) + correspondence sweeps'}
     return core.finish(rep, b, 'proof', extra,
                        ['Spec/Arith.lean transcribes FIPS 204 Algorithms 14, 15, 35-40, 49', 'Rust integer semantics as encoded in Fips204/Basic.lean',
-                        'partial_reduce64: theorem covers |x| <= 67_000_000; the top slices are covered exhaustively by the oracle sweep'])
+                        'partial_reduce64: |x| <= 67_000_000 by linear arithmetic, the two top slices by kernel evaluation of every value (Lemmas/Pr64Top.lean); they are also swept exhaustively here'])
